@@ -3,6 +3,8 @@ package checks
 import (
 	"errors"
 	"fmt"
+	"os"
+	"runtime/pprof"
 	"math/rand"
 	"net"
 	"sync"
@@ -61,6 +63,8 @@ func runC05(c *mon.Case) {
 				switch {
 				case r2.completed:
 					c.Shard.Inconc(fmt.Sprintf("session seed %d missed its 75 s deadline once but completed on the re-run (load)", seeds[i]))
+				case r2.desync:
+					c.Shard.Violate("pairing-desync", fmt.Sprintf("after relay faults ceased the transfer neither completed nor failed visibly within 300 s (reproduced): the client completed the first handshake and moved to the key-derived rendezvous, the server did not complete it (act three lost or late) and stays on the passphrase rendezvous: %s", r2.progress), r2.rep)
 				case r2.relayActiveTail && !r2.anyVisibleFailureTail:
 					c.Shard.Violate("silent-hang|"+r2.profile, fmt.Sprintf("after relay faults ceased the transfer neither completed nor failed visibly within 300 s (reproduced): %s", r2.progress), r2.rep)
 				default:
@@ -94,6 +98,7 @@ type c05Result struct {
 	bytes, bytesA, bytesB int64
 	relayMsgs, faults     int
 	conns                 int
+	desync                bool
 	relayActiveTail       bool
 	anyVisibleFailureTail bool
 	rep                   map[string]any
@@ -105,7 +110,7 @@ func c05Session(seed int64, deadline time.Duration) *c05Result {
 	pass := eng.Entropy(rng)
 	auth := authMarker(rng, 300)
 	relay := sim.NewRelay()
-	relay.KeepLog = false
+	relay.KeepLog = getenv("C05_DUMP") != ""
 	s := eng.NewMboxParty(eng.NewKey(rng), nil, pass, auth, 0, 2)
 	cl := eng.NewMboxParty(eng.NewKey(rng), nil, pass, nil, 0, 2)
 
@@ -184,7 +189,7 @@ func c05Session(seed int64, deadline time.Duration) *c05Result {
 		profile += "+slowreader"
 	}
 	res.profile = profile
-	res.rep = map[string]any{"seed": seed, "profile": profile, "fault_until": faultUntil.String(), "writes_c2s": sizesA, "writes_s2c": sizesB}
+	res.rep = map[string]any{"seed": fmt.Sprint(seed), "profile": profile, "fault_until": faultUntil.String(), "writes_c2s": sizesA, "writes_s2c": sizesB}
 
 	m.StartServer()
 	m.StartClient()
@@ -297,6 +302,21 @@ func c05Session(seed int64, deadline time.Duration) *c05Result {
 		}
 	}
 	res.completed = doneA.Load() && doneB.Load()
+	// Known finding: the first pairing is not atomic. If act three is lost or
+	// arrives after the server's handshake read timeout, the client has
+	// already completed (it stored the server's key and moves to the
+	// key-derived rendezvous with the key-based pattern) while the server
+	// has not (it stays on the passphrase rendezvous): they never meet again.
+	res.desync = !res.completed && cl.CD.RemoteKey() != nil && s.CD.RemoteKey() == nil
+	if !res.completed && getenv("C05_DUMP") != "" {
+		if f, err := os.Create(fmt.Sprintf("%s.%d", getenv("C05_DUMP"), seed%1000)); err == nil {
+			_ = pprof.Lookup("goroutine").WriteTo(f, 1)
+			for _, e := range relay.Log() {
+				fmt.Fprintln(f, e.T, e.Kind, e.Stream, e.Note)
+			}
+			f.Close()
+		}
+	}
 	el := time.Since(t0)
 	res.relayActiveTail = el-time.Duration(lastOp.Load()) < 15*time.Second
 	res.anyVisibleFailureTail = lastFail.Load() > 0 && el-time.Duration(lastFail.Load()) < 60*time.Second
